@@ -33,6 +33,7 @@ Inductive opreq :=
 | QDestroy (u : option Z)
 | QAttrList (u : option Z)        (* GetAttributeList: depends on the attribute policy    *)
 | QDiscover                       (* DiscoverVersions: needs KMIP 1.1                     *)
+| QGetState (u : option Z)        (* GetAttributes [Name; State]: the answer is the state the store holds NOW *)
 | QQuery (with_ops : bool).       (* Query; with_ops: the function list contains QueryOperations - the operation list
                                      answered depends on the protocol version (1.0: 12, 1.1: 13, 1.2 and later: 18) *)
 
@@ -69,6 +70,7 @@ Inductive mop :=
 | MSetPh                    (* _id_placeholder := new identifier                                                       *)
 | MActivate | MDestroy
 | MAttrs                    (* reads _attribute_policy                                                                 *)
+| MState                    (* the State attribute of the object just loaded                                           *)
 | MQuery (with_ops : bool)  (* _process_query: reads _protocol_version twice (>= 1.1, >= 1.2)                          *)
 | MEmit (opc : Z)           (* the batch item's result                                                                 *)
 | MClose.                   (* end of `with session`                                                                   *)
@@ -83,6 +85,9 @@ Definition set_store (sh : shared) st n := mkShared (s_ident sh) (s_ver sh) (s_a
 Definition fail (l : local) (c : Z) : local :=
   mkLocal (l_target l) (l_obj l) (match l_fail l with Some x => Some x | None => Some c end) (l_new l)
           (l_who l) (l_vseen l) (l_extra l) (l_stop l) (l_out l).
+
+(* owner code of objects stored under an operation policy that allows every client every operation (ALLOW_ALL) *)
+Definition PUBLIC := -1.
 
 Definition find_obj (u : Z) (st : list obj) : option obj := find (fun o => o_uid o =? u) st.
 
@@ -122,7 +127,7 @@ Definition interp (m : mop) (p : shared * local) : shared * local :=
       if active l then
         let l' := mkLocal (l_target l) (l_obj l) (l_fail l) (l_new l) (Some (s_ident sh)) (l_vseen l) (l_extra l) (l_stop l) (l_out l) in
         match l_obj l with
-        | Some o => (sh, if o_owner o =? s_ident sh then l' else fail l' 2)
+        | Some o => (sh, if (o_owner o =? s_ident sh) || (o_owner o =? PUBLIC) then l' else fail l' 2)
         | None => (sh, fail l' 1)
         end
       else (sh, l)
@@ -156,6 +161,11 @@ Definition interp (m : mop) (p : shared * local) : shared * local :=
         (sh, mkLocal (l_target l) (l_obj l) (l_fail l) (l_new l) (l_who l) (Some (s_apol sh))
                      (if 14 <=? s_apol sh then 1 else 0) (l_stop l) (l_out l))
       else (sh, l)
+  | MState =>
+      if active l then
+        (sh, mkLocal (l_target l) (l_obj l) (l_fail l) (l_new l) (l_who l) (l_vseen l)
+                     (match l_obj l with Some o => o_state o | None => 0 end) (l_stop l) (l_out l))
+      else (sh, l)
   | MQuery with_ops =>
       if active l then
         (sh, mkLocal (l_target l) (l_obj l) (l_fail l) (l_new l) (l_who l) (Some (s_ver sh))
@@ -173,7 +183,7 @@ Definition interp (m : mop) (p : shared * local) : shared * local :=
 
 (* KMIP Operation enumeration values *)
 Definition OP_create := 1.  Definition OP_get := 10.  Definition OP_attrlist := 12.
-Definition OP_activate := 18.  Definition OP_destroy := 20.  Definition OP_discover := 30.  Definition OP_query := 24.
+Definition OP_activate := 18.  Definition OP_destroy := 20.  Definition OP_discover := 30.  Definition OP_query := 24.  Definition OP_getattrs := 11.
 
 Definition prog_of_op (o : opreq) : list mop :=
   match o with
@@ -183,6 +193,7 @@ Definition prog_of_op (o : opreq) : list mop :=
   | QDestroy u => [MGate 10; MResolve u; MLoad; MCheck; MDestroy; MEmit OP_destroy]
   | QAttrList u => [MResolve u; MLoad; MCheck; MAttrs; MEmit OP_attrlist]
   | QDiscover => [MGate 11; MEmit OP_discover]
+  | QGetState u => [MResolve u; MLoad; MCheck; MState; MEmit OP_getattrs]
   | QQuery w => [MQuery w; MEmit OP_query]
   end.
 
